@@ -161,11 +161,9 @@ func (m *ServiceMap) syncTLSOptionsFromRootDomain() {
 
 			rootService := m.ServiceForHost(host)
 			if rootService != nil {
-				service.options.TLSEnabled = rootService.options.TLSEnabled
-				service.options.TLSRedirect = rootService.options.TLSRedirect
+				service.setTLSSettings(rootService.tlsSettings())
 			} else {
-				service.options.TLSEnabled = defaultServiceOptions.TLSEnabled
-				service.options.TLSRedirect = defaultServiceOptions.TLSRedirect
+				service.setTLSSettings(defaultServiceOptions.TLSEnabled, defaultServiceOptions.TLSRedirect)
 			}
 		}
 	}
